@@ -173,6 +173,25 @@ def run(ctx):
              "Proof. vm_compute. reflexivity. Qed.\n")
     ok, log = coqrun.compile_lemma_file(ctx.bdir, "Gen_C17_observed", body)
     ctx.obligation("Gen_C17_observed: accept/reject observed at definition time = Model.Vocab.policy", ok, log[-600:])
+    # ---- what a kernel kind accepts does not depend on which definitions were attempted before ----
+    bad = ("@move\ndef main():\n    with schedule.parallel():\n        gate.global_rz(1.0)\n", "@move\ndef main(a0):\n    action.set_loc(a0)\n")
+    for b in bad:
+        try_define(b)            # refused (inside the schedule-to-path pipeline / at lowering); the outcome itself is not judged here
+    n_again = 0
+    for (mn, n, b, d), c in zip(ws, wcat):
+        for ki, kind in enumerate(KINDS):
+            if not POLICY[c][ki]:
+                continue
+            for form, src in one_statement_kernels(kind, mn, n, b)[:1]:
+                first = next((a for cc, kk, a in acc_rows if False), None)
+                got, why = try_define(src)
+                n_again += 1
+                ctx.evaluations += 1
+                if got != "accepted" and not (why.startswith("TypeCheckError") and kind != "tweezer"):
+                    ctx.fail({"wrapper": f"{mn}.{n}", "kind": kind, "got": got, "documented": "accept", "history": "after refused definitions"},
+                             {"src": src, "expected": "accepted", "history": list(bad) + [src]},
+                             f"@{kind} kernel using {mn}.{n} is {got} ({why}) when defined after other kernels were refused")
+    ctx.count("accepted cells re-defined after refused definitions", n_again)
     # ---- the tracer's guard ----
     S = tweezer_prog.harness_spec()
     from bloqade.shuttle.codegen.taskgen import TraceInterpreter
@@ -182,8 +201,20 @@ def run(ctx):
     kr = kernels.define("@kernel\ndef main():\n    gate.global_rz(1.0)\n", kernel=shuttle.kernel)["main"]
     outer = kernels.define("@tweezer\ndef main():\n    def inner():\n        action.set_loc(grid.from_positions([0.0], [0.0]))\n    return inner\n")["main"]
     clo = TraceInterpreter(S).run(outer, ())
+    # functions of other dialect groups (kirin's own `structural` group, and a hand-made group of action + grid without the tweezer pipeline)
+    others = []
+    try:
+        from kirin.prelude import structural
+        from bloqade.geometry.dialects import grid as grid_mod
+        from bloqade.shuttle.dialects import action as action_d
+        others.append(("plain function of kirin's structural group", kernels.define("@structural\ndef main():\n    return 1\n", structural=structural)["main"]))
+        mixed = structural.union([action_d.dialect, grid_mod.dialect])
+        others.append(("function of a group with the action dialect but not compiled by @tweezer",
+                       kernels.define("@mixed\ndef main():\n    action.set_loc(grid.from_positions([0.0], [0.0]))\n", mixed=mixed)["main"]))
+    except Exception as e:
+        ctx.extra["tracer_guard_other_groups"] = f"could not build: {type(e).__name__}: {e}"[:200]
     guard = {}
-    for name, m in [("tweezer kernel", tw), ("closure", clo), ("move kernel", mv), ("atom-level kernel", kr)]:
+    for name, m in [("tweezer kernel", tw), ("closure", clo), ("move kernel", mv), ("atom-level kernel", kr)] + others:
         try:
             r = TraceInterpreter(S).run_trace(m, (), {})
             guard[name] = "traced"
@@ -193,6 +224,7 @@ def run(ctx):
             guard[name] = "other:" + type(e).__name__
         ctx.evaluations += 1
     want = {"tweezer kernel": "traced", "closure": "traced", "move kernel": "refused", "atom-level kernel": "refused"}
+    want.update({n: "refused" for n, _ in others})
     ctx.extra["tracer_guard"] = guard
     body = coqrun.HEADER + "From BS Require Import Model.Vocab.\n"
     cb = lambda v: "true" if v == "traced" else "false"
